@@ -534,6 +534,12 @@ func cancelOutcome(s *Script) error {
 
 // ---- handlers ----
 
+// BeforeOutcome, when set, is called inside every scripted unary / init
+// handler after its logs went out and right before it returns its scripted
+// outcome (the seam through which a world ends the call's context while the
+// handler is still in flight).
+var BeforeOutcome func(ctx context.Context, s *Script)
+
 // InitHook, when set, is called at the start of every scripted handler (world
 // specific probes: sticky sessions, transport kind, hash ...).
 var InitHook func(ctx context.Context, cc *vgirpc.CallContext, s *Script)
@@ -565,6 +571,9 @@ func preamble(ctx context.Context, cc *vgirpc.CallContext, p ScriptParams) (*Scr
 		cc.CloseSession()
 	}
 	emitLogsCtx(cc, s.Logs)
+	if f := BeforeOutcome; f != nil {
+		f(ctx, s)
+	}
 	switch s.Outcome {
 	case "error":
 		return s, s.Err.Build()
